@@ -1338,5 +1338,13 @@ def instantiate_model(ex, c: ClassInfo, args, kwargs, st: State, node) -> Option
                     except Exception:
                         return None
         if fields:
-            return make_namedtuple(ex, tuple(fields), defaults, args, kwargs, st, node, c.name)
+            t_ = make_namedtuple(ex, tuple(fields), defaults, args, kwargs, st, node, c.name)
+            ex.__dict__.setdefault("nt_class", {}).setdefault(t_.uid, set()).add(c.qualname)
+            return t_
+    # class X(namedtuple("X", "a b")): the same, fields from the call
+    nf_ = ex.prog.namedtuple_fields_of(c) if hasattr(ex.prog, "namedtuple_fields_of") else None
+    if nf_ and c.lookup("__new__") is None and c.lookup("__init__") is None and "**" not in kwargs and not any(a.op == "star" for a in args):
+        t_ = make_namedtuple(ex, tuple(nf_), {}, args, kwargs, st, node, c.name)
+        ex.__dict__.setdefault("nt_class", {}).setdefault(t_.uid, set()).add(c.qualname)
+        return t_
     return None
